@@ -17,7 +17,9 @@ OBLIGATIONS = ["set_value_list_spec", "set_value_dict_spec", "set_value_forms_ag
 N_QUICK, N_THOROUGH = 600, 6000
 SHARD = 150
 RULE = ("seeded random matrix relations over 0-4 variables (domains of 1-3 distinct, unordered "
-        "integer values) with int, float, mixed, 2^31-boundary, 2^40-scale and +/-inf tables; "
+        "integer values) with int, float, mixed, 2^31-boundary, 2^40-scale and +/-inf tables, "
+        "and for set also explicit int8/uint8/int16/int32 numpy tables with float / out-of-range "
+        "/ infinite values set into them; "
         "operations set (list/dict), get (list/dict), slice, generate_assignment_as_dict, join "
         "(overlapping, disjoint, identical, 0-ary scopes), projection (min/max); plus a malformed "
         "stream (values outside the domain, missing / extra variables, short / long lists, "
@@ -152,7 +154,15 @@ def palette(rng, allow_inf=True):
     return draw
 
 
-def gen_rel(rng, variables, arity=None, allow_inf=True):
+# explicit numpy integer dtypes (what np.array(..., np.int8) tables of the unit tests use)
+NARROW = {"int8": (-128, 127), "uint8": (0, 255), "int16": (-2 ** 15, 2 ** 15 - 1),
+          "int32": (-2 ** 31, 2 ** 31 - 1)}
+# values a narrow table must be widened for
+WIDE_VALUES = [{"f": "0.1"}, {"f": "1234.567"}, {"f": "2.5"}, {"f": "-0.25"}, {"f": "65504.06"},
+               16777217, -2500000000, int(1e300), 300, -5, 70000, 2 ** 40, "inf", "-inf"]
+
+
+def gen_rel(rng, variables, arity=None, allow_inf=True, narrow=False):
     if arity is None:
         arity = rng.choice([0, 1, 1, 2, 2, 2, 3, 3, 4])
     arity = min(arity, len(variables))
@@ -163,6 +173,10 @@ def gen_rel(rng, variables, arity=None, allow_inf=True):
     draw = palette(rng, allow_inf)
     table = [draw() for _ in range(n)]
     dtype = rng.choice(["int", "int", "float"])
+    if narrow:
+        dtype = rng.choice(list(NARROW))
+        lo, hi = NARROW[dtype]
+        table = [rng.randint(max(lo, -1000), min(hi, 1000)) for _ in range(n)]
     return dict(dims=[v["id"] for v in dims], table=table, dtype=dtype)
 
 
@@ -184,7 +198,7 @@ def gen(rng, n, tier):
         bad = rng.random() < 0.15
         c["bad"] = bad
         if kind in ("setlist", "setdict", "getlist", "getdict", "slice"):
-            r = gen_rel(rng, vs)
+            r = gen_rel(rng, vs, narrow=kind.startswith("set") and rng.random() < 0.35)
             c["rel"] = r
             dims = rel_dims(c, r)
             asg = [[v["id"], rng.choice(v["dom"])] for v in dims]
@@ -215,6 +229,9 @@ def gen(rng, n, tier):
                     val = {"f": repr(rng.choice([2.5, -0.25, 1e-3, 7.75]))}
                 c["value"] = val
                 c["value_float"] = rng.random() < 0.4
+                if r["dtype"] in NARROW:
+                    c["value"] = rng.choice(WIDE_VALUES)
+                    c["value_float"] = isinstance(c["value"], int) and rng.random() < 0.5
         elif kind == "gen":
             k = rng.randint(0, min(4, nv))
             c["dims"] = [v["id"] for v in rng.sample(vs, k)]
@@ -282,7 +299,10 @@ def build_rel(case, r, objs, name=None):
     shape = tuple(len(v.domain) for v in dims)
     as_float = r["dtype"] == "float"
     flat = [untok(t, as_float) for t in r["table"]]
-    arr = np.array(flat).reshape(shape)
+    if r["dtype"] in NARROW:
+        arr = np.array(flat, dtype=getattr(np, r["dtype"])).reshape(shape)
+    else:
+        arr = np.array(flat).reshape(shape)
     return NAryMatrixRelation(dims, arr, name=name)
 
 
